@@ -689,11 +689,12 @@ def main():
     if depth != 0:
         order_problems.append("EnsureReset guard is declared in a nested block (scope ends before the transformation)")
     # the error message is cleared before the try block
-    m_em = re.search(r"m_errorMessage\.resize\(\s*1\s*,\s*'\\0'\s*\)\s*;", dt)
+    m_em = re.search(r"m_errorMessage\.resize\(\s*1\s*,\s*'\\0'\s*\)\s*;", dt) or \
+        re.search(r"m_errorMessage\.clear\(\s*\)\s*;\s*m_errorMessage\.push_back\(\s*(?:'\\0'|0)\s*\)\s*;", dt)
     if not m_em or m_em.start() > try_m.start():
         raise TErr("doTransform no longer clears m_errorMessage before the try block")
     setup.insert(0, {"guard": None, "target": M.mid("T", "m_errorMessage"), "act": "set", "val": ("seq", [0]),
-                     "src": "m_errorMessage.resize(1, '\\0')"})
+                     "src": "m_errorMessage := \"\\0\" (before the try block)"})
     # setStylesheetRoot (StylesheetExecutionContextDefault): what it assigns
     sr, line, _ = find_body(src["EC"][1], r"\bStylesheetExecutionContextDefault::setStylesheetRoot\s*\([^)]*\)\s*", "EC::setStylesheetRoot")
     where["EC::setStylesheetRoot"] = "%s:%d" % (src["EC"][3], line)
